@@ -40,6 +40,8 @@ def rust_ty(t):
         return "std::collections::VecDeque<%s>" % rust_ty(t["t"])
     if k == "array":
         return "[%s; %d]" % (rust_ty(t["t"]), t["n"])
+    if k == "arrayvec":
+        return "arrayvec::ArrayVec<%s, %d>" % (rust_ty(t["t"]), t["cap"])
     if k == "option":
         return "Option<%s>" % rust_ty(t["t"])
     if k == "result":
@@ -88,6 +90,8 @@ def rust_val(t, x):
         return "{let v: Vec<%s> = vec![%s]; std::collections::VecDeque::from(v)}" % (rust_ty(t["t"]), ",".join(rust_val(t["t"], y) for y in x[1]))
     if k == "array":
         return "[%s]" % ",".join(rust_val(t["t"], y) for y in x[1])
+    if k == "arrayvec":
+        return "{let mut a = arrayvec::ArrayVec::<%s, %d>::new(); %s a}" % (rust_ty(t["t"]), t["cap"], " ".join("a.push(%s);" % rust_val(t["t"], y) for y in x[1]))
     if k == "option":
         return "None" if x[0] == "none" else "Some(%s)" % rust_val(t["t"], x[1])
     if k == "result":
@@ -287,6 +291,9 @@ def gen_val(rng, t, depth=0):
         return ("unit",)
     if k == "string":
         return ("str", rng.choice(STRS))
+    if k == "arrayvec":
+        n = rng.randint(0, t["cap"])
+        return ("seq", [gen_val(rng, t["t"], depth + 1) for _ in range(n)])
     if k in ("vec", "seq"):
         n = rng.choice([0, 0, 1, 2, 3, 5, 8] + ([63, 64, 65, 130] if depth == 0 and t["t"]["k"] in ("int", "bool", "char", "f32") else []))
         return ("seq", [gen_val(rng, t["t"], depth + 1) for _ in range(n)])
@@ -541,7 +548,7 @@ def walk_types(t, f):
     """apply f to every type node (pre-order)"""
     f(t)
     k = t["k"]
-    if k in ("vec", "seq", "array", "option", "box", "cell"):
+    if k in ("vec", "seq", "array", "option", "box", "cell", "arrayvec"):
         walk_types(t["t"], f)
     elif k == "result":
         walk_types(t["a"], f)
